@@ -1608,6 +1608,32 @@ impl World {
         if !callers_ok {
             tr.fail("C19", "admin_needs_role", func, &format!("{func} succeeded for unprivileged caller {caller}"));
         }
+        // the EFFECT of a successful grant / revocation, read back from the real contract: a role that was taken away is
+        // gone (a revoked pauser / admin / whitelisted contract / hub agent can no longer act), a role that was given is there
+        match (kind, opn) {
+            ("perm", "addAdmin" | "removeAdmin" | "addPause" | "removePause") => {
+                let v = self.view_bytes(&sc, "getPermissions", vec![a_addr(u.addr(target))]);
+                let bits = v.iter().fold(0u64, |a, x| a * 256 + *x as u64);
+                let (mask, want) = match opn { "addAdmin" => (2, true), "removeAdmin" => (2, false), "addPause" => (4, true), _ => (4, false) };
+                if ((bits & mask) != 0) != want {
+                    tr.fail("C19", "role_change_effective", func, &format!("after a successful {func}({target}) the permission bits of {target} are {bits:03b}"));
+                }
+            }
+            ("wl", "add" | "remove") => {
+                let v = self.view_bytes(&sc, "isSCAddressWhitelisted", vec![a_addr(u.addr(target))]);
+                if v.is_empty() == (opn == "add") {
+                    tr.fail("C19", "role_change_effective", func, &format!("after a successful {func}({target}) isSCAddressWhitelisted = {}", !v.is_empty()));
+                }
+            }
+            ("hub", "removeWhitelist" | "blacklist") => {
+                let owner_of_list = if opn == "removeWhitelist" { caller } else { "user" };
+                let v = self.view_bytes(&sc, "isWhitelisted", vec![a_addr(u.addr(owner_of_list)), a_addr(u.addr(target))]);
+                if !v.is_empty() {
+                    tr.fail("C19", "role_change_effective", func, &format!("after a successful {func}({target}) the hub still reports {target} as authorised by {owner_of_list}"));
+                }
+            }
+            _ => {}
+        }
         tr.res_ok(n, "sm", &line);
     }
 }
